@@ -99,7 +99,7 @@ def check_plan(plan, cwd, files=None, alt_root=None):
                 la = m.get("line_after")
                 if la is not None and b"\n" not in text:
                     lbb = lb.encode()
-                    col = s - ls
+                    col = len(lossy(line[: s - ls]).encode())      # where the match stands in the DECODED line
                     want = lbb[:col] + m.get("replace", "").encode() + lbb[col + len(text):]
                     if la.encode() != want:
                         probs.append({"clause": "line_after", "hunk": i,
@@ -198,8 +198,17 @@ def check_preview(plan, diff_text, cwd, before_files, after_files):
     """before_files / after_files: dict abs path -> bytes (after_files None: there is no applied tree, only the
     'before' sides are judged).  Returns problems (clause in before/plus/line_after)."""
     probs = []
+    out_of_scope = set()
+    for m in plan["matches"]:
+        data = before_files.get(resolve(cwd, m["file"]))
+        if data is not None and 0 <= m["start"] <= len(data):
+            ls = data.rfind(b"\n", 0, m["start"]) + 1
+            if not is_valid_utf8(data[ls:m["start"]]):
+                out_of_scope.add((resolve(cwd, m["file"]), m["line"]))
     for f, n, before, after in parse_diff(diff_text):
         path = resolve(cwd, f)
+        if (path, n) in out_of_scope:
+            continue          # invalid UTF-8 in front of a match: the preview works on the lossily decoded line (C03 finding)
         b0 = before_files.get(path)
         b1 = after_files.get(path) if after_files is not None else b""
         if b0 is None or b1 is None:
@@ -218,7 +227,7 @@ def check_preview(plan, diff_text, cwd, before_files, after_files):
     for m in plan["matches"]:
         per_line.setdefault((m["file"], m["line"]), []).append(m)
     for (f, n), ms in per_line.items():
-        if len(ms) != 1 or ms[0].get("line_after") is None:
+        if len(ms) != 1 or ms[0].get("line_after") is None or (resolve(cwd, f), n) in out_of_scope:
             continue
         b1 = after_files.get(resolve(cwd, f))
         if b1 is None:
